@@ -21,6 +21,10 @@ def generate(rng, tier='quick', mode=None, **kw):
   conns = [{'open_delay': rng.choice([0, 0, 0.005, 0.02]), 'open_sync': rng.random() < 0.5,
             'open_fail': rng.random() < 0.08} for _ in range(rng.randint(1, 3))]
   conns[0]['open_fail'] = False
+  if mode != 'singleton' and rng.random() < 0.5:
+    for c in conns:
+      c['close_yield'] = rng.choice([0, 0, 0.002])
+      c['open_fail'] = False
   if mode == 'singleton':
     for i in range(n_ops):
       r = rng.random()
@@ -203,10 +207,15 @@ def run_refcount(scn):
 
     def on_request(self, r):
       pass
+
+    def on_open_during_close(self, sink):
+      REC.violation('C16', 'open_during_close',
+                    'the underlying sink %r was opened while its Close() was still in progress' % (sink,))
   provider = StubProvider(W())
   shared = SharedSinkProvider(lambda props: props.get('key'))
   shared.next_provider = provider
   holders = {}       # h -> dict(sink, opens)
+  pending = []
   model = {}         # id(refcounted sink) -> dict(count, underlying, open_ar); dropped when collected
   gone = []
   base = CLOCK.now
@@ -268,6 +277,14 @@ def run_refcount(scn):
             REC.violation('C16', 'different_open_result', 'holders got different open results')
           if not ar.ready():
             REC.probe('open_in_progress_shared')
+      elif k == 'close' and u.spec.get('close_yield') is not None and m['count'] == 1:
+        # last holder closes while the underlying Close() takes a moment; other
+        # holders' operations of the same instant run concurrently with it
+        REC.probe('concurrent_close')
+        m['count'] = 0
+        m['was_zero'] = True
+        pending.append(gevent.spawn(s.Close))
+        gevent.sleep(0)
       elif k == 'close':
         before_c = u.close_calls
         s.Close()
@@ -295,5 +312,14 @@ def run_refcount(scn):
           m['u'].die(signal=True, fail_inflight=True)
           REC.fault('conn_die')
   gevent.sleep(0.5)
+  for m in model.values():
+    u = m['u']
+    if u.died_at is not None:
+      continue
+    if m['count'] > 0 and u.closed_at is not None:
+      REC.violation('C16', 'closed_with_holders',
+                    '%d holder(s) have the shared sink open but the underlying sink %r is closed' % (m['count'], u))
+    if m['count'] == 0 and u.open_calls > 0 and u.closed_at is None and not u.opening:
+      REC.violation('C16', 'last_close_not_forwarded', 'no holder left but the underlying sink %r is still open' % (u,))
   REC.sample = {'mode': 'refcount', 'ops': scn['ops'][:12]}
   REC.state(('refcount', len(model), len(provider.sinks)))
